@@ -508,7 +508,7 @@ def main():
                 undecided.append(dict(x, engine='verus'))
         # ---- Kani ----
         if harnesses:
-            files = sorted({h['file'] for h in harnesses})
+            files = sorted({h['file'] for h in harnesses} | {'src/lib.rs'} | ({'src/main.rs'} if any(h.get('bin') for h in harnesses) else set()))
             inj, errmsg = inject_kani_modules(sc.repo, files)
             if inj is None:
                 undecided.append(dict(obligation='kani:inject', reason=errmsg, engine='kani'))
@@ -713,7 +713,7 @@ def main():
 
 def run_pairs(sc, hs):
     """Run Kani harnesses paired with a failed Verus obligation that were not part of this run."""
-    files = sorted({h['file'] for h in hs})
+    files = sorted({h['file'] for h in hs} | {'src/lib.rs'} | ({'src/main.rs'} if any(h.get('bin') for h in hs) else set()))
     todo = [f for f in files if 'appended by /verif/check' not in open(os.path.join(sc.repo, f)).read()]
     if todo:
         inj, err = inject_kani_modules(sc.repo, todo)
